@@ -121,12 +121,14 @@ Definition in_volume (c : cfg) (i : idx) : Prop :=
   0 <= oz < ofm_depth c /\ 0 <= wy < kernel_h c /\ 0 <= wx < kernel_w c /\ 0 <= iz < ifm_depth c.
 
 (* what the callers guarantee (weight_compressor.encode_weights, architecture_features):
-   positive sizes; the block depths are multiples of the micro-block depths; depthwise volumes
+   positive sizes; the ofm block depth is a multiple of the ofm micro-block depth, or there is a
+   single ofm block (per-core block depth 4 on a two-core U65 occurs only for ofm depth <= 4);
+   the ifm block depth (16 / 32) is a multiple of the ifm micro-block depth; depthwise volumes
    have ifm depth 1 and are never part-kernel-first *)
 Definition valid_cfg (c : cfg) : Prop :=
   0 < ofm_depth c /\ 0 < kernel_h c /\ 0 < kernel_w c /\ 0 < ifm_depth c /\
   0 < ofm_ublock c /\ 0 < ifm_ublock c /\ 0 < ofm_block c /\ 0 < decomp_h c /\ 0 < decomp_w c /\
-  ofm_block c mod ofm_ublock c = 0 /\ ifm_block_depth c mod ifm_ublock c = 0 /\
+  (ofm_block c mod ofm_ublock c = 0 \/ ofm_depth c <= ofm_block c) /\ ifm_block_depth c mod ifm_ublock c = 0 /\
   (is_dw c = true -> ifm_depth c = 1 /\ is_pk c = false).
 
 (* the documented nesting as a sort key of a source position, outermost loop first:
